@@ -504,6 +504,25 @@ func c13RoundTrip(t []rune, enc int, oi int) *mc.Failure {
 			Expected: fmt.Sprintf("value %q consuming the whole literal", string(t)),
 			Observed: fmt.Sprintf("err=%d value=%q end=%d/%d %s", got.err, string(got.lit), got.end, len(src), got.perr)}
 	}
+	// short texts also through the whole pipeline (the token is not yet the value a program sees):
+	// 输出<literal> evaluates to the text, as written and with every character spelled `U+hex`
+	if len(t) <= 2 && oi <= 1 {
+		if f := c13E2E(src, string(t)); f != nil {
+			f.Bucket = "roundtrip-evaluated"
+			return f
+		}
+		if enc == 0 {
+			hex := []rune{open}
+			for _, ch := range t {
+				hex = append(hex, []rune(fmt.Sprintf("`U+%X`", ch))...)
+			}
+			hex = append(hex, c13Close[open])
+			if f := c13E2E(hex, string(t)); f != nil {
+				f.Bucket = "roundtrip-evaluated-hex"
+				return f
+			}
+		}
+	}
 	return nil
 }
 
@@ -529,7 +548,7 @@ func init() {
 		ID:    "C13",
 		Level: "exploration",
 		Rule: "E1 exhaustive: every literal body of length <= L over a 31-symbol critical alphabet (10 quote characters, backtick, CR, LF, letters of the escape names, +, hex digits, x, a CJK char, space) inside each of the 5 opening quotes, real lexer vs reference decoder; every sequence of <= 5 (6 thorough) words of a 23-word alphabet (escape names as units, hex words, quotes, line breaks); every backtick text of <= 5 letters over the 14 letters of the escape names (so every near miss of an escape name, e.g. `TABK`, `CRL`, `U+`); " +
-			"plus round trip text->canonical literal->lexer for every text <= L (3 encoders x 5 quotes) and Unicode scalar boundaries. The lexer must leave its input unchanged, and the end-to-end cases (bodies <= 3 symbols in the two double-quote families, word sequences <= 2) execute one loaded script twice with the same value. Enumeration is injective (odometer), so every case is distinct; a case is non-trivial if it contains a backtick, a quote character or a line break (i.e. exercises more than verbatim copying).",
+			"plus round trip text->canonical literal->lexer for every text <= L (3 encoders x 5 quotes) over the alphabet extended by Unicode scalar boundaries and 16 characters without a glyph of their own (variation selectors, zero-width characters, direction marks, soft hyphen, U+FEFF, a combining accent, U+FFFD, other line / space separators); texts <= 2 also evaluated (输出<literal>, as written and spelled `U+hex`). The lexer must leave its input unchanged, and the end-to-end cases (bodies <= 3 symbols in the two double-quote families, word sequences <= 2) execute one loaded script twice with the same value. Enumeration is injective (odometer), so every case is distinct; a case is non-trivial if it contains a backtick, a quote character or a line break (i.e. exercises more than verbatim copying).",
 		Assumptions: []string{
 			"reference decoder written from manual chapters 1 and 6; where three readings of 'other backtick text is kept literally' disagree, only 'no crash and the value is one of the readings' is required",
 			"U+hex outside the Unicode scalar range is not asserted (statement restricts it to valid code points)",
